@@ -34,8 +34,10 @@ VERIF = os.path.dirname(os.path.dirname(os.path.abspath(__file__)))
 
 
 class UnitBuilder:
-    def __init__(self, repo):
+    def __init__(self, repo, canary=None):
         self.repo = repo
+        self.canary = canary   # None | 'fn' | 'loop'
+        self.canaries = []
         self.sources = {}
         self.items = []      # evidence: dicts
         self.clauses = 0     # number of spliced contract clauses
@@ -234,6 +236,17 @@ class UnitBuilder:
                 fn.insert(ob, '\n' + ''.join('    %s\n%s\n' % (k, b) for k, b in cl))
         if has_contract:
             self.contracted.append(name)
+            if self.canary == 'fn':
+                lab = 'fn:' + name.replace(' ', '_')
+                fn.insert(fn.ob + 1, ' assert(false); /*CANARY %s*/\n' % lab, order=-1)
+                self.canaries.append(lab)
+            if self.canary == 'loop':
+                for n, cl in loop_clauses.items():
+                    if cl:
+                        s, ob, cb = loops[n - 1]
+                        lab = 'loop%d:%s' % (n, name.replace(' ', '_'))
+                        fn.insert(ob + 1, ' assert(false); /*CANARY %s*/\n' % lab, order=-1)
+                        self.canaries.append(lab)
         return fn.render()
 
     def _anchor(self, fn, loops, anchor, name):
